@@ -44,6 +44,8 @@ pub struct RqCfg {
     pub despite: bool,
     pub framing: String, // default | cl0 | cl2 | chunked
     pub conn_other: Option<&'static str>, // extra request Connection value (keep-alive, ...) for C10
+    /// a further Expect line (an extension expectation) ahead of 100-continue
+    pub expect_extra: bool,
 }
 
 impl RqCfg {
@@ -69,6 +71,9 @@ impl RqCfg {
             b = b.header("connection", "close");
         }
         if self.expect {
+            if self.expect_extra {
+                b = b.header("expect", "x-extension=1");
+            }
             b = b.header("expect", "100-continue");
         }
         match self.framing.as_str() {
@@ -148,9 +153,12 @@ impl EarlyMsg {
         let text: String = match kind {
             "100" => ["HTTP/1.1 100 Continue\r\n\r\n", "HTTP/1.1 100 \r\n\r\n", "HTTP/1.1 100 Please Go On With The Body Now\r\n\r\n", "HTTP/1.0 100 Continue\r\n\r\n"][variant % 4].into(),
             "refuseBare" => ["HTTP/1.1 403 Forbidden\r\n\r\n", "HTTP/1.1 417 Expectation Failed\r\n\r\n", "HTTP/1.1 200 OK\r\n\r\n",
-                             "HTTP/1.1 102 Processing\r\n\r\n", "HTTP/1.1 199 \r\n\r\n", "HTTP/1.1 101 Switching Protocols\r\n\r\n"][variant % 6].into(),
-            "refuseFields" => ["HTTP/1.1 403 Forbidden\r\nX-A: b\r\nContent-Length: 0\r\n\r\n", "HTTP/1.1 413 Too Large\r\nContent-Length: 0\r\nX-B: c\r\n\r\n"][variant % 2].into(),
-            _ => "HTTP/1.1 403 Forbidden\r\nConnection: close\r\nX-A: b\r\n\r\n".into(),
+                             "HTTP/1.1 102 Processing\r\n\r\n", "HTTP/1.1 199 \r\n\r\n", "HTTP/1.1 101 Switching Protocols\r\n\r\n",
+                             // no reason phrase and no space after the code: not what the grammar says, but what servers send
+                             "HTTP/1.1 403\r\n\r\n", "HTTP/1.0 503 \r\n\r\n"][variant % 8].into(),
+            "refuseFields" => ["HTTP/1.1 403 Forbidden\r\nX-A: b\r\nContent-Length: 0\r\n\r\n", "HTTP/1.1 413 Too Large\r\nContent-Length: 0\r\nX-B: c\r\n\r\n",
+                               "HTTP/1.1 403 Forbidden\r\nConnection: keep-alive\r\nContent-Length: 0\r\n\r\n", "HTTP/1.0 401 No\r\nConnection: Keep-Alive\r\nContent-Length: 0\r\n\r\n"][variant % 4].into(),
+            _ => ["HTTP/1.1 403 Forbidden\r\nConnection: close\r\nX-A: b\r\n\r\n", "HTTP/1.0 403 Forbidden\r\nConnection: close\r\nX-A: b\r\n\r\n"][variant % 2].into(),
         };
         let bytes = text.into_bytes();
         let sl = bytes.windows(2).position(|w| w == b"\r\n").unwrap() + 2;
@@ -160,16 +168,20 @@ impl EarlyMsg {
     pub fn is_refusal(&self) -> bool {
         self.kind != "100"
     }
+    /// a status line the grammar does not allow (no space after the status code) that parsers commonly accept
+    pub fn lenient(&self) -> bool {
+        self.bytes.get(12) == Some(&b'\r')
+    }
     /// the final-response configuration that a refusal message is
     pub fn fin(&self) -> FinCfg {
         let text = String::from_utf8_lossy(&self.bytes).to_string();
         let status: u16 = text[9..12].parse().unwrap();
         FinCfg {
             status,
-            resp10: false,
+            resp10: text.starts_with("HTTP/1.0"),
             cl: if text.contains("Content-Length: 0") { "zero".into() } else { "absent".into() },
             te: "absent".into(),
-            conn: if text.contains("Connection: close") { "close".into() } else { "absent".into() },
+            conn: if text.contains("Connection: close") { "close".into() } else if text.to_ascii_lowercase().contains("connection: keep-alive") { "keepalive".into() } else { "absent".into() },
             loc: None,
             reason: String::new(),
         }
@@ -409,14 +421,16 @@ impl Sim {
             let keep = guarded(|| f.can_keep_await_100());
             match (r, keep) {
                 (Some(Ok(n)), Some(k)) => {
-                    ev_call(t, "Await100", "try_read_100", json!({"cls":cls,"mlen":mlen,"res":"ok","n":n,"keep":k,"w":input.len()}));
+                    let lenient = self.early.as_ref().map(|e| e.lenient()).unwrap_or(false);
+                    ev_call(t, "Await100", "try_read_100", json!({"cls":cls,"mlen":mlen,"res":"ok","n":n,"keep":k,"w":input.len(),"lenient":lenient}));
                     if cls == "bare100" && n > 0 {
                         self.took100 = true;
                     }
                     return n;
                 }
                 (Some(Err(e)), Some(k)) => {
-                    ev_call(t, "Await100", "try_read_100", json!({"cls":cls,"mlen":mlen,"res":"err","n":0,"keep":k,"w":input.len(),"err":format!("{:?}", e)}));
+                    let lenient = self.early.as_ref().map(|e| e.lenient()).unwrap_or(false);
+                    ev_call(t, "Await100", "try_read_100", json!({"cls":cls,"mlen":mlen,"res":"err","n":0,"keep":k,"w":input.len(),"err":format!("{:?}", e),"lenient":lenient}));
                 }
                 _ => self.panic(t, "try_read_100"),
             }
@@ -493,7 +507,7 @@ impl Sim {
         if let FlowBox::RecvResponse(f) = &mut self.fb {
             let r = guarded(|| f.try_response(&input));
             let ready = guarded(|| f.can_proceed());
-            let mut e = json!({"kind":kind,"mlen":mlen,"w":input.len()});
+            let mut e = json!({"kind":kind,"mlen":mlen,"w":input.len(),"lenient": refusal.as_ref().map(|r| r.lenient()).unwrap_or(false)});
             // a late 100 offered together with the complete final head: the code may skip the 100 and hand out the
             // response in the same call (hlen = length of that head, 0 if the 100 was offered alone)
             let together = kind == "late100" && input.len() > mlen && fin_cfg.is_some();
